@@ -371,8 +371,10 @@ def finish(run, level_note_extra=None, rule=None, exhaustive=False, assumptions=
         "wall_s": round(time.time() - run.t0, 1),
         "violations": len({(f[1], f[2], f[3]) for f in unknown}),
     }
-    os.makedirs(os.path.join(VERIF, "evidence"), exist_ok=True)
-    with open(os.path.join(VERIF, "evidence", run.prop + ".json"), "w") as f:
+    # a run against another checkout (VERIF_REPO) is an experiment: its evidence does not replace the one of /repo
+    evdir = os.path.join(VERIF, "evidence") if REPO == "/repo" else os.path.join(VERIF, ".work", "evidence-other-repo")
+    os.makedirs(evdir, exist_ok=True)
+    with open(os.path.join(evdir, run.prop + ".json"), "w") as f:
         json.dump(ev, f, indent=1, default=str)
     log("%s %s: %d model states, %d traces / %d events validated, %d unknown failures, %d known hits, %.0fs" % (
         run.prop, run.tier, run.model["states"], run.traces, run.events, len(unknown), len(hits), time.time() - run.t0))
